@@ -207,6 +207,7 @@ def run_shard(sh):
   T.consttbl_stream(sh, "sv", 4 if sh.tier == "quick" else 40, mech)
   T.ifcportlist_stream(sh, "sv", 3 if sh.tier == "quick" else 30, mech)
   T.childportlist_stream(sh, "sv", 3 if sh.tier == "quick" else 30, mech)
+  T.structtmp_stream(sh, "sv", 2 if sh.tier == "quick" else 20, mech)
   T.wrapstruct_stream(sh, "sv", 3 if sh.tier == "quick" else 30, mech)
   T.constuse_stream(sh, "sv", 4 if sh.tier == "quick" else 40, mech)
   T.localname_stream(sh, "sv", 4 if sh.tier == "quick" else 40, mech)
